@@ -1152,7 +1152,7 @@ func (g *g) arithText(pieces *[]Piece) []string {
 			ps = append(ps, skel.Quote(`"`, nil), skel.Param(false, "x", "", skel.Nil))
 			g.f("arith_quote")
 		default:
-			w := g.pick("arith_lit", "1", "x", "+", "1+2", "(1+2)*3", "x<<2", "y=5", "x>1", "a&&b", "-", "0x1F", "!x", "(x)", "x?1:2", "é", "日本+1")
+			w := g.pick("arith_lit", "1", "x", "+", "1+2", "(1+2)*3", "x<<2", "y=5", "x>1", "a&&b", "-", "0x1F", "!x", "(x)", "x?1:2", "é", "日本+1", "16#ff", "2#101+1", "x#")
 			b.WriteString(w)
 			ps = append(ps, skel.Lit(w))
 		case 4:
